@@ -20,7 +20,7 @@ Theorem tables_agree_after_every_history :
     /\ length (fwd s) = length (pipe s).
 Proof.
   intros T ops s.
-  pose proof (urun_inv eq_refl eq_refl eq_refl T ops uinit UInv_init) as I.
+  pose proof (urun_inv eq_refl eq_refl eq_refl eq_refl T ops uinit UInv_init) as I.
   pose proof (urun_kinv T ops uinit KInv_init) as K.
   pose proof (sizes_agree _ I K) as L.
   destruct I as [A B C D]. destruct K as [P F]. repeat split; assumption.
@@ -36,7 +36,7 @@ Theorem datagram_uses_its_own_socket :
     lookup m (fwd (fst (ustep T s (ClientDgram m now d c k)))) = Some sock.
 Proof.
   intros T ops m now d c k sock s. apply routing_s; try exact eq_refl.
-  exact (urun_inv eq_refl eq_refl eq_refl T ops uinit UInv_init).
+  exact (urun_inv eq_refl eq_refl eq_refl eq_refl T ops uinit UInv_init).
 Qed.
 Print Assumptions datagram_uses_its_own_socket.
 
@@ -47,7 +47,7 @@ Theorem reply_carries_the_flow_label :
     snd (ustep T (fst (urun T uinit ops)) (PeerDgram m now)) = [ToClient m].
 Proof.
   intros T ops m now. apply reply_labelled.
-  destruct (urun_inv eq_refl eq_refl eq_refl T ops uinit UInv_init) as [A _ _ _]. exact A.
+  destruct (urun_inv eq_refl eq_refl eq_refl eq_refl T ops uinit UInv_init) as [A _ _ _]. exact A.
 Qed.
 Print Assumptions reply_carries_the_flow_label.
 
@@ -59,7 +59,7 @@ Theorem idle_flows_are_released :
     exists c, lookup m (pipe (fst (ustep T s (Tick now)))) = Some c /\ now - T <= u_la c.
 Proof.
   intros T ops now m s. apply expiry_both; try exact eq_refl.
-  exact (urun_inv eq_refl eq_refl eq_refl T ops uinit UInv_init).
+  exact (urun_inv eq_refl eq_refl eq_refl eq_refl T ops uinit UInv_init).
 Qed.
 Print Assumptions idle_flows_are_released.
 
@@ -72,7 +72,7 @@ Theorem answered_dns_flow_is_released :
     /\ has (reversed m) (fwd (fst (ustep T s (PeerDgram m now)))) = false.
 Proof.
   intros T ops m now c s. apply answered_dns_flow_released.
-  exact (urun_inv eq_refl eq_refl eq_refl T ops uinit UInv_init).
+  exact (urun_inv eq_refl eq_refl eq_refl eq_refl T ops uinit UInv_init).
 Qed.
 Print Assumptions answered_dns_flow_is_released.
 
@@ -86,7 +86,7 @@ Theorem released_pair_starts_a_fresh_flow :
     /\ forall m', lookup m' (fwd s) <> Some (next_sock s).
 Proof.
   intros T ops m now d s H.
-  pose proof (urun_inv eq_refl eq_refl eq_refl T ops uinit UInv_init) as I.
+  pose proof (urun_inv eq_refl eq_refl eq_refl eq_refl T ops uinit UInv_init) as I.
   split.
   - rewrite (fresh_flow_fresh_socket T s m now d I H). reflexivity.
   - intros m' L. destruct I as [_ _ C _]. specialize (C m' _ L). apply N.lt_irrefl in C. exact C.
@@ -103,7 +103,7 @@ Theorem faults_stay_inside_their_flow :
     /\ lookup m' (fwd (fst (ustep T s o))) = lookup m' (fwd s).
 Proof.
   intros T ops o m m' s. apply other_flows_untouched; try exact eq_refl.
-  exact (urun_inv eq_refl eq_refl eq_refl T ops uinit UInv_init).
+  exact (urun_inv eq_refl eq_refl eq_refl eq_refl T ops uinit UInv_init).
 Qed.
 Print Assumptions faults_stay_inside_their_flow.
 
